@@ -1,6 +1,7 @@
 package sim
 
 import (
+	"encoding/base64"
 	"encoding/hex"
 	"fmt"
 	"net/url"
@@ -340,7 +341,14 @@ func (c *Config) ApplyInfl(o *Op) {
 func (s *Sim) Gov(o *Op) string {
 	space := o.str("space")
 	key := o.str("key")
-	ss := s.App.Subspace(space)
+	full := space
+	if space != "swap" {
+		full = "vpn/" + space
+	}
+	ss, ok := s.App.ParamsKeeper.GetSubspace(full)
+	if !ok {
+		return "reject:gov:nosubspace"
+	}
 	var val interface{}
 	switch {
 	case o.has("coins"):
@@ -394,6 +402,11 @@ func CanonEvents(evs []abci.Event) []string {
 			v := a.Value
 			if len(v) >= 2 && v[0] == '"' && v[len(v)-1] == '"' {
 				v = v[1 : len(v)-1]
+			}
+			if a.Key == "tx_hash" {
+				if b, err := base64.StdEncoding.DecodeString(v); err == nil {
+					v = hx(b)
+				}
 			}
 			attrs = append(attrs, a.Key+"="+canonText(v))
 		}
